@@ -31,7 +31,7 @@ type pair struct {
 
 var pairMu sync.Mutex // TestPlugin*Conn helpers are not meant to be raced with each other's t.Fatalf; creation is serialized
 
-func newPair(t *testing.T, kind string) (*pair, error) {
+func newPair(t *testing.T, kind string, extraNames ...string) (*pair, error) {
 	p := &pair{kind: kind, core: vp.NewCore()}
 	pairMu.Lock()
 	defer pairMu.Unlock()
@@ -40,7 +40,11 @@ func newPair(t *testing.T, kind string) (*pair, error) {
 		np := &vp.NetP{Name: "kv", Label: "inproc", Core: p.core,
 			OnServer: func(b *plugin.MuxBroker) { p.plugMux = b },
 			OnClient: func(b *plugin.MuxBroker) { p.hostMux = b }}
-		c, _ := plugin.TestPluginRPCConn(t, map[string]plugin.Plugin{"kv": np}, nil)
+		ps := map[string]plugin.Plugin{"kv": np}
+		for _, n := range extraNames {
+			ps[n] = &vp.NetP{Name: n, Label: "inproc", Core: p.core}
+		}
+		c, _ := plugin.TestPluginRPCConn(t, ps, nil)
 		p.rpcClient = c
 		raw, err := c.Dispense("kv")
 		if err != nil {
